@@ -180,6 +180,7 @@ def _mk_pipeline(family):
                             ('method', 'method_return_object', 'fault'), ('app', 'method_return_object', 'other')],
                            'failing_listener')
         h = Harness(c, family, failing=failing)
+        h.server_fault_detail = {}
         seen = {}
 
         def grab(ctx):
@@ -232,6 +233,9 @@ def _mk_pipeline(family):
             c.check('string_intact', doc['faultstring'] == f.faultstring, detail=(doc['faultstring'], f.faultstring))
             c.check('detail_intact', _norm_detail(family, doc['detail'] or None) == _norm_detail(family, f.detail or None),
                     detail=(doc['detail'], f.detail))
+            if family not in ('soap11', 'soap12', 'xml', 'httprpc'):
+                # typed documents tell an empty detail from no detail: a detail that was given is present
+                c.check('detail_presence_intact', (doc['detail'] is None) == (f.detail is None), detail=(doc['detail'], f.detail))
             c.check('status_documented', status[:3] == _expected_status(family, f), detail=(status, f.faultcode))
         c.check('return_value_not_sent', not doc['extra'] and b'mResult' not in body and b'mResponse' not in body,
                 detail=(doc['extra'], body[:200]))
